@@ -423,8 +423,8 @@ def profile(st):
 CHECK = CandleFeedCheck(
     prop='C20', profile=profile,
     monitors=lambda: [CandleMonitor(('C20',))],
-    tiers={'quick': 200, 'thorough': 20_000},
-    extra_tiers={'quick': {'fill': 3000, 'store': 5000, 'spacing': 150}, 'thorough': {'fill': 300_000, 'store': 500_000, 'spacing': 5000}},
+    tiers={'quick': 200, 'thorough': 5_000},
+    extra_tiers={'quick': {'fill': 3000, 'store': 5000, 'spacing': 150}, 'thorough': {'fill': 150_000, 'store': 250_000, 'spacing': 3000}},
     nontrivial=lambda r: True,
     rule=('(a) a fake exchange feed serves 1m batches for a drawn interval with message-loss faults (minutes missing at the start, in the '
           'middle, at the end, all but one, random), exact duplicates and shuffled order; every batch goes through the real '
